@@ -27,22 +27,22 @@ import (
 )
 
 type kvCfg struct {
-	Base     string `json:"base"` // "db" | "iavl"
-	IavlCache int   `json:"iavl_cache"`
-	Steps    int    `json:"n"`
+	Base      string `json:"base"` // "db" | "iavl"
+	IavlCache int    `json:"iavl_cache"`
+	Steps     int    `json:"n"`
 }
 
 type kvStep struct {
-	Op   string `json:"op"`
-	Kind string `json:"kind,omitempty"` // push: cache|prefix
-	K    string `json:"k,omitempty"`    // hex
-	V    string `json:"v,omitempty"`    // hex
-	S    *string `json:"s,omitempty"`   // hex start (nil = unbounded)
+	Op   string  `json:"op"`
+	Kind string  `json:"kind,omitempty"` // push: cache|prefix
+	K    string  `json:"k,omitempty"`    // hex
+	V    string  `json:"v,omitempty"`    // hex
+	S    *string `json:"s,omitempty"`    // hex start (nil = unbounded)
 	E    *string `json:"e,omitempty"`
-	Rev  bool   `json:"rev,omitempty"`
-	Hold bool   `json:"hold,omitempty"`
-	ID   int    `json:"id,omitempty"`
-	N    int    `json:"n,omitempty"`
+	Rev  bool    `json:"rev,omitempty"`
+	Hold bool    `json:"hold,omitempty"`
+	ID   int     `json:"id,omitempty"`
+	N    int     `json:"n,omitempty"`
 }
 
 type kvPair struct{ k, v []byte }
@@ -64,13 +64,13 @@ type heldIter struct {
 }
 
 type kvSim struct {
-	prop   string
-	res    *core.Result
-	db     *simdb.DB
-	layers []*kvLayer
-	held   []*heldIter
-	nextID int
-	stepNo int
+	prop       string
+	res        *core.Result
+	db         *simdb.DB
+	layers     []*kvLayer
+	held       []*heldIter
+	nextID     int
+	stepNo     int
 	commitBase func()
 }
 
@@ -455,7 +455,7 @@ func (s *kvSim) exec(st kvStep) {
 func (s *kvSim) gen(r *core.Rand) kvStep {
 	ti := len(s.layers) - 1
 	top := s.top()
-	w := []int{ /*push*/ 6, /*set*/ 26, /*del*/ 12, /*get*/ 12, /*has*/ 6, /*iter*/ 18, /*next*/ 6, /*close*/ 4, /*write*/ 5, /*discard*/ 3, /*commit*/ 2}
+	w := []int{ /*push*/ 6 /*set*/, 26 /*del*/, 12 /*get*/, 12 /*has*/, 6 /*iter*/, 18 /*next*/, 6 /*close*/, 4 /*write*/, 5 /*discard*/, 3 /*commit*/, 2}
 	if ti >= 4 {
 		w[0] = 0
 	}
